@@ -346,6 +346,11 @@ class SeqCheck(FnCheck):
         ctx.optional_fields = set(self.optional_fields)
         ctx.container_hints = dict(self.container_hints)
         ctx.float_model = self.float_model
+        ctx.solver_timeout_ms = getattr(self, 'feasibility_timeout_ms', ctx.solver_timeout_ms)
+        ctx.feasibility_ematch_only = bool(getattr(self, 'feasibility_ematch_only', False))
+        ctx.seq_membership_facts = bool(getattr(self, 'seq_membership_facts', False))
+        ctx.field_types = dict(getattr(self, 'field_types', {}))
+        ctx.max_paths = self.max_paths
         ex = Executor(ctx)
         ctx.callees = self.callees(ex)
         ctx.hooks = self.hooks(ex)
